@@ -40,6 +40,7 @@ inductive Expr
   | field (e : Expr)
   | index (arr : Nat) (i : Expr)
   | getline (cmd target file : Expr)
+  | namedField (e : Expr)                  -- `@expr` (field by name)
   deriving DecidableEq, Repr
 
 inductive Err | syntax | unsupported
@@ -159,7 +160,7 @@ def primaryF (b : Back) : Parser
       | .error x => .error x
     | .div => .error .unsupported
     | .asg .div => .error .unsupported
-    | .at => .error .unsupported
+    | .at => bindR (b.primary ts) fun e rest => .ok (.namedField e, rest)
     | .func _ => .error .unsupported
     | _ => .error .syntax
 
@@ -407,6 +408,7 @@ def render : Expr → List Tok
   | .incr pre dec e =>
     if pre then (if dec then Tok.decr else Tok.incr) :: render e else render e ++ [if dec then Tok.decr else Tok.incr]
   | .field e => .dollar :: render e
+  | .namedField e => .at :: render e
   | .index a i => .name a :: .lbracket :: render i ++ [.rbracket]
   | .getline cmd target file =>
     (if cmd = .none then [] else render cmd ++ [.pipe]) ++ .getline :: render target ++
@@ -424,6 +426,7 @@ def strip : Expr → Expr
   | .field e => .field (strip e)
   | .index a i => .index a (strip i)
   | .getline c t f => .getline (strip c) (strip t) (strip f)
+  | .namedField e => .namedField (strip e)
   | e => e
 
 def stripRes (r : Res) : Res :=
@@ -461,6 +464,7 @@ def Expr.prec : Expr → Nat
   | .unary .. => 11
   | .incr .. => 13
   | .field _ => 14
+  | .namedField _ => 14
   | _ => 15
 
 /-- parenthesise `e` if the table does not let it stand at a position of level `q` -/
@@ -479,6 +483,7 @@ def signStart : Tok → Bool
 
 def isField : Expr → Bool
   | .field _ => true
+  | .namedField _ => true
   | _ => false
 
 mutual
@@ -499,6 +504,7 @@ def addMin (pc : Bool) : Expr → Expr
     .incr false dec (.field (if isField e then .group (addMin false e) else fitMin false 14 e))
   | .incr false dec e => .incr false dec (addMin false e)
   | .field e => .field (fitMin false 14 e)
+  | .namedField e => .namedField (fitMin false 14 e)
   | .index a i => .index a (addMin false i)
   | .getline c t f =>
     if pc && c != .none then .group (.getline (fitMin false 8 c) (addMin false t) (fitMin false 14 f))
@@ -523,6 +529,7 @@ def addFull : Expr → Expr
   | .inArr e a => .inArr (grp e) a
   | .incr p d e => .incr p d (addFull e)
   | .field e => .field (grp e)
+  | .namedField e => .namedField (grp e)
   | .index a i => .index a (grp i)
   | .getline c t f => .getline (grp c) (addFull t) (grp f)
   | .group e => .group (addFull e)
